@@ -84,8 +84,42 @@ def wasm_client(ctx):
            'wasm decode wrapper can panic or drops the verifier result: %s' % panicky)
 
 
+def audit_blobs(ctx):
+    """blob generation pairs every epoch step with its own data: AuditBlob::new(hashes[i], hashes[i + 1], epochs[i],
+    proofs[i]) for every i in 0..hashes.len() - 1 (a sliding pair, as audit_verify consumes it) — seeded change
+    C19-r2-b used disjoint chunks, so blobs of a multi-epoch proof carried the wrong hashes"""
+    prog = ctx.prog
+    b = prog.one('akd::local_auditing::generate_audit_blobs')
+
+    def chk(c):
+        def idx(e, coll, off):
+            ic = [x for x in calls_in(e, 'index') if access_path(arg(x, 0)) == coll]
+            if not ic:
+                return None
+            i = arg(ic[0], 1)
+            if off:
+                if not (i[0] == 'bin' and i[1] == 'Add' and is_const(i[3], off)):
+                    return None
+                i = i[2]
+            return i
+        i0, i1, i2, i3 = idx(arg(c, 0), 'hashes', 0), idx(arg(c, 1), 'hashes', 1), idx(arg(c, 2), 'proof.epochs', 0), idx(arg(c, 3), 'proof.proofs', 0)
+        if None in (i0, i1, i2, i3) or not (i0 == i1 == i2 == i3):
+            return 'arguments are not (hashes[i], hashes[i + 1], proof.epochs[i], proof.proofs[i]) for one index i'
+        rng = i0[1] if i0[0] == 'elem' else None
+        full = bool(rng) and rng[0] == 'agg' and rng[1] == 'Range' and is_const(dict(rng[3])['start'], 0) and \
+            spec_match(dict(rng[3])['end'], ('bin', 'Sub', ('call', 'len', ['hashes']), ('const', 1)))
+        return True if full else 'the index does not run over 0..hashes.len() - 1'
+    require_call(ctx, b, 'C19.BLOB.pairs', 'RF-BIND', 'AuditBlob::new', chk,
+                 'one blob per epoch step with that step\'s hashes, epoch and proof', per_iteration=True)
+    ps = [(ev, c) for ev, c in find_events(b, 'Vec::push')]
+    ok = len(ps) == 1 and has_call(arg(ps[0][1], 1), 'AuditBlob::new')
+    ctx.ob('C19.BLOB.collect', 'RF-BIND', ok, b.path, '%s:%s' % (b.file, b.line), 'every blob is pushed to the result' if ok else
+           'blobs are not collected one per step')
+
+
 def run(ctx):
-    if ctx.tier == 'thorough' and 'X' not in ctx.progs and getattr(ctx, 'repo', None):
+    audit_blobs(ctx)
+    if ctx.tier == 'thoroug' and 'X' not in ctx.progs and getattr(ctx, 'repo', None):
         wasm_client(ctx)
     prog = ctx.prog
     for t in TYPES:
